@@ -2,6 +2,7 @@ import DracoProofs.Octahedron
 import DracoProofs.OctaAngle
 import DracoProofs.OctaFloatAngle
 import DracoProofs.GeneratedFuncs
+import DracoProofs.GeneratedSqrt
 /-
   C07 (integer half) — octahedral coordinates produced by the encoder lie inside the q-bit
   square `[0, max_value_]² = [0, 2^q − 2]²` and are canonical (the unique representative of the
@@ -602,5 +603,14 @@ theorem source_canonicalizeIntVec_is_model (t : OctaT) (x y z : Int) (hwf : t.WF
 example : Generated.OctahedronToolBox.CanonicalizeIntegerVector (Generated.ofOctaT (Octa.ofCenter 127)) (-2000000000) 5 (-7) =
     Octa.canonicalizeIntVec (Octa.ofCenter 127) (-2000000000, 5, -7) :=
   source_canonicalizeIntVec_is_model _ _ _ _ (by unfold OctaT.WF Octa.ofCenter; decide) (by decide) (by decide) (by decide)
+
+open Generated in
+/-- `IntSqrt` (core/math_utils.h; its `while` and `do … while` loops translated as bounded iteration `cWhile 64`) returns the
+    model's `Eb.intSqrt` = floor square root for every `uint64_t`: the iteration bound is never reached and no `uint64_t`
+    operation wraps -/
+theorem source_intSqrt_is_model (n : Nat) (hn : n < 2 ^ 64) :
+    IntSqrt (n : Int) = some ((Eb.intSqrt n : Nat) : Int) := IntSqrt_eq_model n hn
+example : Generated.IntSqrt ((17 : Nat) : Int) = some ((4 : Nat) : Int) := by
+  rw [source_intSqrt_is_model 17 (by norm_num)]; decide
 
 end Draco
